@@ -123,7 +123,7 @@ def c03(run):
 
 def c17(run):
     run.scen("MC_Vol", dict(VOL_RAND(run), MaxFiles=2, Big="FALSE"), invariants=VOL_INV, workers=8, own=by_prefix("vol_index", "vol_member_err", "scenario"), name="MC_Vol (lookups)")
-    run.scen("MC_ResMgr", {})
+    run.scen("MC_ResMgr", {}, invariants=("LooseFirst", "ContainingContains", "TypeListingLaws", "PatternListingLaws", "Export"), workers=8)
 
 
 def c20(run):
